@@ -94,6 +94,12 @@ REGEX_SPECS = [
     ("cw_rawregex_char", "regex/StringMatcher.cpp", r"if \(str\[0\] == '(\\?.)'\) return true;", "cchar"),
     ("cw_ignored_char", "regex/StringMatcher.cpp", r"\(isEscape == false\)&&\(\*s != '(\\?.)'\)&&\(prevCharWasEscape == false\)", "cchar"),
     ("cw_comma_char", "regex/StringMatcher.cpp", r"if \(\(\*s == '(\\?.)'\)&&\(optRetOnlySpecialCharIsCommas != NULL\)\) sawComma = true;", "cchar"),
+    # --- C04: reflector constants that live inside reflector/StorageReflectSession.cpp
+    ("default_max_subscription_message_size", "reflector/StorageReflectSession.cpp", r"#define\s+DEFAULT_MAX_SUBSCRIPTION_MESSAGE_SIZE\s+(\d+)", "int"),
+    ("default_path_prefix", "reflector/StorageReflectSession.cpp", r"#define\s+DEFAULT_PATH_PREFIX\s+\"([^\"]*)\"", "str"),
+    ("cleanup_unsubscribe_delta_abs", "reflector/StorageReflectSession.cpp", r"SubscribeRefCallbackArgs srcArgs\(-(\d+)\);\s*//\s*remove all of our subscriptions", "int"),
+    ("max_batch_nest_count", "reflector/StorageReflectSession.cpp", r"MAX_BATCH_NEST_COUNT\s*=\s*(\d+)\s*;", "int"),
+    ("max_node_changed_aux_nest_count", "reflector/StorageReflectSession.cpp", r"MAX_NODE_CHANGED_AUX_NEST_COUNT\s*=\s*(\d+)\s*;", "int"),
     # --- packet tunnels (C12): constants inside iogateway/PacketTunnelIOGateway.cpp / MiniPacketTunnelIOGateway.cpp
     ("tunnel_fragment_header_words", "iogateway/PacketTunnelIOGateway.cpp", r"FRAGMENT_HEADER_SIZE\s*=\s*(\d+)\s*\*\s*\(sizeof\(uint32\)\)\s*;", "int"),
     ("tunnel_max_receive_states", "iogateway/PacketTunnelIOGateway.cpp", r"MAX_NUM_RECEIVE_STATES\s*=\s*(\d+)\s*;", "int"),
